@@ -255,9 +255,27 @@ func genCfg(r *vf.RNG) cfg {
 	return c
 }
 
+// deadlineFlush: histories of the "deadline-flush" family. A tiny blocking queue kept full by many producers, an
+// instant exporter, and flushers whose contexts expire within microseconds: a ForceFlush whose marker cannot
+// be queued in time must not report success (the same oracle as every other history decides).
+var deadlineFlush bool
+
+func runDeadlineFlush(k *vf.Case) {
+	deadlineFlush = true
+	defer func() { deadlineFlush = false }()
+	runHistory(k)
+	k.C.Count("deadline_flush_histories", 1)
+}
+
 func runHistory(k *vf.Case) {
 	r := k.R
 	c := genCfg(r)
+	if deadlineFlush {
+		c.Queue, c.Blocking, c.ExpMode, c.Timeout = vf.Pick(r, []int{1, 2, 3}), true, 0, time.Hour
+		c.Batch = vf.Pick(r, []int{2, 7, 64})
+		c.Producers, c.PerProducer, c.Flushers, c.Shutdowners = vf.Pick(r, []int{8, 16}), 150, 4, 0
+		c.ExportTimeout = 0
+	}
 	prev := runtime.GOMAXPROCS(c.Procs)
 	defer runtime.GOMAXPROCS(prev)
 	theSink.reset()
@@ -328,6 +346,10 @@ func runHistory(k *vf.Case) {
 	}
 	// flushers
 	mkCtx := func(fr *vf.RNG) (context.Context, context.CancelFunc, string) {
+		if deadlineFlush && fr.Chance(4, 5) {
+			ctx, cancel := context.WithTimeout(context.Background(), time.Duration(2+fr.Intn(150))*time.Microsecond)
+			return ctx, cancel, "short-deadline"
+		}
 		switch fr.Intn(5) {
 		case 0:
 			ctx, cancel := context.WithCancel(context.Background())
@@ -349,7 +371,9 @@ func runHistory(k *vf.Case) {
 			fr := vf.NewRNG(seed)
 			<-release
 			for producersLeft.Load() > 0 {
-				time.Sleep(time.Duration(fr.Intn(800)) * time.Microsecond)
+				if !deadlineFlush {
+					time.Sleep(time.Duration(fr.Intn(800)) * time.Microsecond)
+				}
 				ctx, cancel, kind := mkCtx(fr)
 				cr := callRec{kind: "flush", ctxKind: kind}
 				cr.call = vf.Tick()
@@ -782,7 +806,7 @@ func runListEdit(k *vf.Case) {
 
 func main() {
 	vf.Main("C01", "exploration", func(c *vf.Ctx) {
-		c.Rule = "seeded concurrent histories against the real BatchSpanProcessor: producers x spans, flushers (live/short-deadline/cancelled contexts), mid-run and concurrent Shutdown callers, configurations queue{0 (blocking only),1,2,3,8,64,2048} x batch{1,2,3,7,64,512} x timeout{1ms,5ms,1h} x exportTimeout{0,1ms,1s} x blocking, exporters instant/slow/erroring/ctx-blocking/gate-blocked, GOMAXPROCS{2,4,16}; one history at a time per child process so the SDK's total_dropped debug record is attributable; exporters re-read their batch before returning; list-edit family (processor list edited while End is parked in a gate processor); scripted export failures that wrap context.Canceled / DeadlineExceeded. distinct = distinct (configuration, drops seen, flush||export overlap, shutdown||End overlap) signatures"
+		c.Rule = "seeded concurrent histories against the real BatchSpanProcessor: producers x spans, flushers (live/short-deadline/cancelled contexts), mid-run and concurrent Shutdown callers, configurations queue{0 (blocking only),1,2,3,8,64,2048} x batch{1,2,3,7,64,512} x timeout{1ms,5ms,1h} x exportTimeout{0,1ms,1s} x blocking, exporters instant/slow/erroring/ctx-blocking/gate-blocked, GOMAXPROCS{2,4,16}; one history at a time per child process so the SDK's total_dropped debug record is attributable; exporters re-read their batch before returning; list-edit family (processor list edited while End is parked in a gate processor); scripted export failures that wrap context.Canceled / DeadlineExceeded; deadline-flush family (tiny blocking queue kept full, flush contexts of 2-150 us). distinct = distinct (configuration, drops seen, flush||export overlap, shutdown||End overlap) signatures"
 		c.Assume = []string{"ForceFlush calls overlapping or following a Shutdown are covered by the Shutdown's guarantee (by design they return nil early)", "quiet-after-Shutdown and visibility are asserted for calls that returned nil", "exact conservation uses the SDK's own total_dropped debug record; per-call visibility in dropping mode with possible overflow is a count inequality"}
 		if c.IsChild() || os.Getenv("VF_REPLAY_ISOLATE") == "" {
 			otel.SetLogger(logr.New(theSink))
@@ -790,6 +814,8 @@ func main() {
 		}
 		n := c.N(4000, 40000)
 		c.Isolated("histories", n, vf.IsoOpts{Batch: 50, Par: 16, Timeout: 10 * time.Minute}, runHistory)
+		c.Isolated("deadline-flush", c.N(400, 4000), vf.IsoOpts{Batch: 20, Par: 16, Timeout: 10 * time.Minute}, runDeadlineFlush)
+		c.Floor("deadline_flush_histories", 200)
 		c.Isolated("list-edit", c.N(300, 4000), vf.IsoOpts{Batch: 50, Par: 16, Timeout: 10 * time.Minute}, runListEdit)
 		c.Floor("list_edit_cases", 150)
 		c.Isolated("capacity", c.N(240, 3000), vf.IsoOpts{Batch: 40, Par: 16, Timeout: 10 * time.Minute}, runCapacity)
